@@ -901,7 +901,12 @@ impl<S: EntryIoStream, E: Entry> Receiver<S, E> {
     }
 
     fn shut_down(mut self) {
-        let deadline = Instant::now() + self.shutdown_timeout;
+        // `Instant + Duration` panics on overflow (e.g. `shutdown_timeout(Duration::MAX)`), which would
+        // kill the writer before it drains the queue. Saturate to a deadline that is never reached instead.
+        let now = Instant::now();
+        let deadline = now
+            .checked_add(self.shutdown_timeout)
+            .unwrap_or_else(|| now + Duration::from_secs(60 * 60 * 24 * 365 * 30));
         let (status, _count) = self.drain_until_deadline(deadline);
         if status == DrainResult::HitDeadline {
             tracing::warn!("unable to drain metrics queue while shutting down");
